@@ -64,3 +64,16 @@ Example C08_nonvacuous :
   validate dag_nodes [] [] None None [] = VMissing /\
   is_entry (input_spec [body_node; loop_gate] [] [] None None) = [(10%positive, [1%positive])].
 Proof. vm_compute. repeat split; reflexivity. Qed.
+
+(* ---- the per-target model of the selection scope (what check 101 accepts) contains the two extremes the theorems above are about ---- *)
+From HG Require Import InputSpecScope.
+Theorem C08_scope_choice_lower_extreme : forall nodes bound nb eps sel,
+  input_spec_s [] nodes bound nb eps sel = input_spec_w false nodes bound nb eps sel.
+Proof. exact spec_none_is_lower_extreme. Qed.
+Print Assumptions C08_scope_choice_lower_extreme.
+
+Theorem C08_scope_choice_upper_extreme : forall Ts nodes bound nb eps sel,
+  (forall n t, In n nodes -> is_gate n = true -> In t (gate_targets n) -> pos_in t Ts = true) ->
+  input_spec_s Ts nodes bound nb eps sel = input_spec_w true nodes bound nb eps sel.
+Proof. exact spec_all_is_upper_extreme. Qed.
+Print Assumptions C08_scope_choice_upper_extreme.
